@@ -8,6 +8,7 @@ import Ufw.Tie.VarintLoops.FromSource
 import Ufw.Tie.VarintLoops.Encode
 import Ufw.Tie.VarintLoops.EndToEnd
 import Ufw.Tie.VarintLoops.Wrappers
+import Ufw.Tie.VarintLoops.EncodeTyped
 #print axioms Ufw.Props.C14.canonical
 #print axioms Ufw.Props.C14.length_eq
 #print axioms Ufw.Props.C14.encode_buf_spec
@@ -66,3 +67,12 @@ import Ufw.Tie.VarintLoops.Wrappers
 #print axioms Ufw.Tie.VarintLoops.sourceLoop_ok_le
 #print axioms Ufw.Tie.VarintLoops.gen_varint_u64_from_source
 #print axioms Ufw.Tie.VarintLoops.gen_varint_u32_from_source
+#print axioms Ufw.Tie.VarintLoops.avail_toNat
+#print axioms Ufw.Tie.VarintLoops.typed_shape
+#print axioms Ufw.Tie.VarintLoops.gen_varint_encode_u64
+#print axioms Ufw.Tie.VarintLoops.gen_varint_encode_s64
+#print axioms Ufw.Tie.VarintLoops.u32_pattern
+#print axioms Ufw.Tie.VarintLoops.s32_pattern
+#print axioms Ufw.Tie.VarintLoops.gen_varint_encode_u32
+#print axioms Ufw.Tie.VarintLoops.gen_varint_encode_s32
+#print axioms Ufw.Tie.VarintLoops.encodeBufSpec_model
